@@ -115,6 +115,39 @@ class DepartureRun(PubSubRun):
             self.res.enumerated.setdefault("wfault", set()).add(f"{a.stage}@{k}")
             self.t(f"{a.name}[{a.stage}] will die after {k} more bytes written to it ({fkind})")
 
+    def pool_scenario(self):
+        """every dynamic id is held; one holder leaves; its id must be available to the next newcomer at once"""
+        ch = self.ch
+        w = self.w
+        made = []
+        for i in range(101):
+            a = self.new_actor(f"dyn{i}")
+            a.protected = True
+            a.open()
+            a.handshake("v2v1", req_id=0, name=b"")
+            made.append(a)
+            w.quiesce()
+        held = [a for a in made if a.alive and not a.sock.peer.closed]
+        if len(held) < 50:
+            return
+        which = ch.choose("dep.poolwho", ["last", "first", "middle"])
+        gone = {"last": held[-1], "first": held[0], "middle": held[len(held) // 2]}[which]
+        way = ch.choose("dep.poolway", ["fin", "rst", "disconnect"])
+        if way == "disconnect":
+            gone.disconnect()
+            gone.leave("fin")
+        else:
+            gone.leave(way)
+        w.quiesce()
+        self.t(f"dynamic id pool is full; the {which} holder leaves ({way}); a newcomer asks for a dynamic id")
+        n = self.new_actor("dyn_new")
+        n.protected = True
+        n.open()
+        n.handshake("v2v1", req_id=0, name=b"")
+        w.quiesce()
+        self.pool_newcomer = n
+        self.res.probes["pool_full_reuse"] += 1
+
     def publish(self, p, t, dest=0, n=None):
         n = self.ch.pick("dep.plen", 50) if n is None else n
         raw = p.frame(t, payload_for(self.w.tag_counter + 1, n), dest_mod=dest)
@@ -226,6 +259,8 @@ class DepartureRun(PubSubRun):
         self.w.quiesce()
         for _ in range(1 + ch.pick("dep.post", 3)):
             self.publish(self.p, T1, dest=ch.weighted("dep.dest2", [(3, 0), (2, 30)]))
+        if ch.flag("dep.pool", 1, 25) and not self.forced:
+            self.pool_scenario()
         if self.refused:
             r, inc = self.refused
             # the incumbent must be undisturbed: a directed probe reaches it
@@ -313,6 +348,14 @@ class DepartureRun(PubSubRun):
                     res.add("C07", "reuse_refused", f"{r.name} reconnecting with id={a.vid} name={a.vname!r} right after "
                                                     f"{a.name} left ({a.stage}) was not acknowledged "
                                                     f"(closed={r.sock.peer.closed})")
+        n = getattr(self, "pool_newcomer", None)
+        if n is not None:
+            ctl = [c for c in model.controls if c.conn == n.conn and c.kind == "connect"]
+            fr, _ = n.received()
+            acks = [h for h, _p in fr if h.msg_type == C.MT_ACKNOWLEDGE and h.src_mod_id == 0]
+            if ctl and ctl[0].decision == MUST_ACCEPT and not acks:
+                res.add("C07", "reuse_refused", "the dynamic id pool was full, one holder left, and the next request for a "
+                                                "dynamic id was refused although that id is free", sig="reuse_refused_dynamic")
         # refusal at connect must not disturb the incumbent
         if self.refused:
             r, inc = self.refused
